@@ -35,6 +35,7 @@ type e2eType struct {
 	ddl      string // column type in CREATE TABLE
 	dataType string // information_schema DATA_TYPE
 	feature  string // "" | finding predicate this type falls under
+	notNull  bool   // declared NOT NULL: the scanner takes the non-Null scan target
 	vals     []e2eVal
 }
 
@@ -49,6 +50,7 @@ func fval(s string) e2eVal {
 func sval(s string) e2eVal {
 	return e2eVal{"'" + strings.ReplaceAll(s, "'", "''") + "'", atrun.Arg{T: "str", V: s}, s}
 }
+
 // a character value of a column the image builder scans into sql.RawBytes (MEDIUMTEXT, LONGTEXT)
 func rval(s string) e2eVal {
 	v := sval(s)
@@ -74,8 +76,7 @@ func tval(s string, layout string) e2eVal {
 var e2eNull = e2eVal{"NULL", atrun.Arg{T: "null"}, nil}
 
 const (
-	featValidation = "undo.e2e.validation-kind"  // the current-image scanner yields another Go kind than the image builder: false "dirty"
-	featScan       = "undo.e2e.scan-unsupported" // the image builder's scan target cannot hold the driver value: phase one fails
+	featScan = "undo.e2e.scan-unsupported" // the image builder's scan target cannot hold the driver value: phase one fails
 )
 
 var allBytes = func() []byte {
@@ -87,38 +88,47 @@ var allBytes = func() []byte {
 }()
 
 var e2eTypes = []e2eType{
-	{"TINYINT", "tinyint", "", []e2eVal{ival(-128), ival(127), ival(0), ival(20)}},
-	{"TINYINT UNSIGNED", "tinyint", "", []e2eVal{ival(200), ival(255), ival(128), ival(1)}},
-	{"SMALLINT", "smallint", "", []e2eVal{ival(-32768), ival(32767), ival(-129)}},
-	{"SMALLINT UNSIGNED", "smallint", "", []e2eVal{ival(65535), ival(40000), ival(32768)}},
-	{"MEDIUMINT", "mediumint", "", []e2eVal{ival(8388607), ival(-8388608)}},
-	{"INT", "int", "", []e2eVal{ival(2147483647), ival(-2147483648), ival(0)}},
-	{"INT UNSIGNED", "int", "", []e2eVal{ival(4294967295), ival(3000000000), ival(2147483648)}},
-	{"BIGINT", "bigint", "", []e2eVal{ival(9007199254740993), ival(-9007199254740993), ival(math.MaxInt64), ival(math.MinInt64), ival(4611686018427387905)}},
-	{"BIGINT UNSIGNED", "bigint", "", []e2eVal{ival(math.MaxInt64), ival(9007199254740995)}},
-	{"FLOAT", "float", "", []e2eVal{fval("1.5"), fval("0.5"), fval("-0.25"), fval("16777216"), fval("3")}},
-	{"FLOAT", "float", featValidation, []e2eVal{fval("1.1"), fval("0.1"), fval("3.14159")}},
-	{"DOUBLE", "double", "", []e2eVal{fval("0.1"), fval("123456789.125"), fval("-2.5e-07"), fval("1e+20"), fval("9007199254740992"), fval("1.7976931348623157e+308")}},
-	{"DECIMAL(14,3)", "decimal", featValidation, []e2eVal{fval("12345.678"), fval("-0.001"), fval("0"), fval("2.5")}},
-	{"CHAR(12)", "char", "", []e2eVal{sval("test"), sval(""), sval("a b"), sval("dGVzdA==")}},
-	{"VARCHAR(64)", "varchar", "", []e2eVal{sval("dGVzdA=="), sval("你好，世界"), sval("1234"), sval(`{"a":1}`), sval("it's"), sval("test"), sval("AAAA"), sval("12.5"), sval("null")}},
-	{"TINYTEXT", "tinytext", "", []e2eVal{sval("tiny"), sval("abcd")}},
-	{"TEXT", "text", "", []e2eVal{sval("some text with <html>&amp;"), sval(strings.Repeat("blank ", 400)), sval("")}},
-	{"MEDIUMTEXT", "mediumtext", "", []e2eVal{rval("medium"), rval("YQ=="), rval("")}},
-	{"LONGTEXT", "longtext", "", []e2eVal{rval("long text"), rval("====")}},
-	{"JSON", "json", "", []e2eVal{sval(`{"a": 1}`), sval(`[1, 2]`)}},
-	{"BINARY(4)", "binary", featValidation, []e2eVal{bval([]byte{0, 0xff}, 4), bval([]byte("test"), 4)}},
-	{"VARBINARY(300)", "varbinary", featValidation, []e2eVal{bval([]byte{0, 1, 0xfe, 0xff}, 0), bval(allBytes, 0), bval([]byte("test"), 0), bval([]byte{}, 0)}},
-	{"TINYBLOB", "tinyblob", featValidation, []e2eVal{bval([]byte{1}, 0), bval([]byte("dGVzdA=="), 0)}},
-	{"BLOB", "blob", featValidation, []e2eVal{bval([]byte("test\n"), 0), bval(allBytes, 0), bval(make([]byte, 3000), 0)}},
-	{"MEDIUMBLOB", "mediumblob", featValidation, []e2eVal{bval([]byte{0xff, 0xfe}, 0)}},
-	{"DATE", "date", "", []e2eVal{tval("2024-02-29", "2006-01-02"), tval("1000-01-01", "2006-01-02"), tval("9999-12-31", "2006-01-02")}},
-	{"DATETIME", "datetime", "", []e2eVal{tval("2024-02-29 23:59:58", "2006-01-02 15:04:05"), tval("1970-01-01 00:00:00", "2006-01-02 15:04:05")}},
-	{"DATETIME(6)", "datetime", "", []e2eVal{tval("2024-02-29 23:59:58.120000", "2006-01-02 15:04:05.000000"), tval("2023-12-31 23:59:59.999999", "2006-01-02 15:04:05.000000"), tval("2000-01-01 00:00:00.000001", "2006-01-02 15:04:05.000000")}},
-	{"TIMESTAMP(3) NULL", "timestamp", "", []e2eVal{tval("2024-02-29 23:59:58.123", "2006-01-02 15:04:05.000"), tval("2038-01-19 03:14:07.999", "2006-01-02 15:04:05.000")}},
-	{"LONGBLOB", "longblob", featScan, []e2eVal{bval([]byte{1, 2}, 0), bval([]byte{3}, 0)}},
-	{"YEAR", "year", featScan, []e2eVal{{"2024", atrun.Arg{T: "int", V: "2024"}, nil}, {"1999", atrun.Arg{T: "int", V: "1999"}, nil}}},
-	{"TIME", "time", featScan, []e2eVal{{"'12:00:01'", atrun.Arg{T: "str", V: "12:00:01"}, nil}, {"'01:02:03'", atrun.Arg{T: "str", V: "01:02:03"}, nil}}},
+	{"TINYINT", "tinyint", "", false, []e2eVal{ival(-128), ival(127), ival(0), ival(20)}},
+	{"TINYINT UNSIGNED", "tinyint", "", false, []e2eVal{ival(200), ival(255), ival(128), ival(1)}},
+	{"SMALLINT", "smallint", "", false, []e2eVal{ival(-32768), ival(32767), ival(-129)}},
+	{"SMALLINT UNSIGNED", "smallint", "", false, []e2eVal{ival(65535), ival(40000), ival(32768)}},
+	{"MEDIUMINT", "mediumint", "", false, []e2eVal{ival(8388607), ival(-8388608)}},
+	{"INT", "int", "", false, []e2eVal{ival(2147483647), ival(-2147483648), ival(0)}},
+	{"INT UNSIGNED", "int", "", false, []e2eVal{ival(4294967295), ival(3000000000), ival(2147483648)}},
+	{"BIGINT", "bigint", "", false, []e2eVal{ival(9007199254740993), ival(-9007199254740993), ival(math.MaxInt64), ival(math.MinInt64), ival(4611686018427387905)}},
+	{"BIGINT UNSIGNED", "bigint", "", false, []e2eVal{ival(math.MaxInt64), ival(9007199254740995)}},
+	{"FLOAT", "float", "", false, []e2eVal{fval("1.5"), fval("0.5"), fval("-0.25"), fval("16777216"), fval("3")}},
+	{"FLOAT", "float", "", false, []e2eVal{fval("1.1"), fval("0.1"), fval("3.14159")}},
+	{"FLOAT NOT NULL", "float", "", true, []e2eVal{fval("1.1"), fval("0.1"), fval("3.14159"), fval("0.5"), fval("16777216")}},
+	{"DOUBLE NOT NULL", "double", "", true, []e2eVal{fval("0.1"), fval("123456789.125"), fval("1e+20")}},
+	{"DECIMAL(10,2) NOT NULL", "decimal", "", true, []e2eVal{fval("12345.67"), fval("-0.01"), fval("0")}},
+	{"INT NOT NULL", "int", "", true, []e2eVal{ival(2147483647), ival(-2147483648), ival(0)}},
+	{"TINYINT UNSIGNED NOT NULL", "tinyint", "", true, []e2eVal{ival(200), ival(255), ival(0)}},
+	{"BIGINT NOT NULL", "bigint", "", true, []e2eVal{ival(9007199254740993), ival(math.MinInt64), ival(math.MaxInt64)}},
+	{"VARCHAR(32) NOT NULL", "varchar", "", true, []e2eVal{sval("test"), sval(""), sval("dGVzdA==")}},
+	{"VARBINARY(16) NOT NULL", "varbinary", "", true, []e2eVal{bval([]byte{0, 0xff}, 0), bval([]byte("test"), 0)}},
+	{"DATETIME(3) NOT NULL", "datetime", "", true, []e2eVal{tval("2024-02-29 23:59:58.120", "2006-01-02 15:04:05.000"), tval("1999-12-31 23:59:59.999", "2006-01-02 15:04:05.000")}},
+	{"YEAR", "year", "", false, []e2eVal{ival(2024), ival(1999), ival(1901), ival(2155)}},
+	{"LONGBLOB", "longblob", "", false, []e2eVal{bval([]byte{1, 2}, 0), bval(allBytes, 0), bval([]byte("test"), 0)}},
+	{"DOUBLE", "double", "", false, []e2eVal{fval("0.1"), fval("123456789.125"), fval("-2.5e-07"), fval("1e+20"), fval("9007199254740992"), fval("1.7976931348623157e+308")}},
+	{"DECIMAL(14,3)", "decimal", "", false, []e2eVal{fval("12345.678"), fval("-0.001"), fval("0"), fval("2.5")}},
+	{"CHAR(12)", "char", "", false, []e2eVal{sval("test"), sval(""), sval("a b"), sval("dGVzdA==")}},
+	{"VARCHAR(64)", "varchar", "", false, []e2eVal{sval("dGVzdA=="), sval("你好，世界"), sval("1234"), sval(`{"a":1}`), sval("it's"), sval("test"), sval("AAAA"), sval("12.5"), sval("null")}},
+	{"TINYTEXT", "tinytext", "", false, []e2eVal{sval("tiny"), sval("abcd")}},
+	{"TEXT", "text", "", false, []e2eVal{sval("some text with <html>&amp;"), sval(strings.Repeat("blank ", 400)), sval("")}},
+	{"MEDIUMTEXT", "mediumtext", "", false, []e2eVal{rval("medium"), rval("YQ=="), rval("")}},
+	{"LONGTEXT", "longtext", "", false, []e2eVal{rval("long text"), rval("====")}},
+	{"JSON", "json", "", false, []e2eVal{sval(`{"a": 1}`), sval(`[1, 2]`)}},
+	{"BINARY(4)", "binary", "", false, []e2eVal{bval([]byte{0, 0xff}, 4), bval([]byte("test"), 4)}},
+	{"VARBINARY(300)", "varbinary", "", false, []e2eVal{bval([]byte{0, 1, 0xfe, 0xff}, 0), bval(allBytes, 0), bval([]byte("test"), 0), bval([]byte{}, 0)}},
+	{"TINYBLOB", "tinyblob", "", false, []e2eVal{bval([]byte{1}, 0), bval([]byte("dGVzdA=="), 0)}},
+	{"BLOB", "blob", "", false, []e2eVal{bval([]byte("test\n"), 0), bval(allBytes, 0), bval(make([]byte, 3000), 0)}},
+	{"MEDIUMBLOB", "mediumblob", "", false, []e2eVal{bval([]byte{0xff, 0xfe}, 0)}},
+	{"DATE", "date", "", false, []e2eVal{tval("2024-02-29", "2006-01-02"), tval("1000-01-01", "2006-01-02"), tval("9999-12-31", "2006-01-02")}},
+	{"DATETIME", "datetime", "", false, []e2eVal{tval("2024-02-29 23:59:58", "2006-01-02 15:04:05"), tval("1970-01-01 00:00:00", "2006-01-02 15:04:05")}},
+	{"DATETIME(6)", "datetime", "", false, []e2eVal{tval("2024-02-29 23:59:58.120000", "2006-01-02 15:04:05.000000"), tval("2023-12-31 23:59:59.999999", "2006-01-02 15:04:05.000000"), tval("2000-01-01 00:00:00.000001", "2006-01-02 15:04:05.000000")}},
+	{"TIMESTAMP(3) NULL", "timestamp", "", false, []e2eVal{tval("2024-02-29 23:59:58.123", "2006-01-02 15:04:05.000"), tval("2038-01-19 03:14:07.999", "2006-01-02 15:04:05.000")}},
+	{"TIME", "time", featScan, false, []e2eVal{{"'12:00:01'", atrun.Arg{T: "str", V: "12:00:01"}, nil}, {"'01:02:03'", atrun.Arg{T: "str", V: "01:02:03"}, nil}}},
 }
 
 type e2eCol struct {
@@ -187,7 +197,7 @@ func e2eGen(r *hutil.Rng, i int, focus int) e2ePlan {
 	rows := map[int64]map[string]interface{}{}
 	nrows := 2 + r.Intn(2)
 	pickVal := func(c e2eCol) e2eVal {
-		if r.Chance(1, 8) && c.ty.feature != featScan {
+		if r.Chance(1, 8) && c.ty.feature != featScan && !c.ty.notNull {
 			return e2eNull
 		}
 		return c.ty.vals[r.Intn(len(c.ty.vals))]
@@ -404,9 +414,6 @@ func (o *Out) e2eCase(r *hutil.Rng, i int, focus int) {
 		}
 		c.Log = canonLog(exp)
 		c.Features = append(c.Features, features(p.cfg, exp)...)
-		if p.feature == featValidation { // the codec itself is not in the finding's region
-			c.Features = removeStr(c.Features, featValidation)
-		}
 		c.Oracle = logEq(exp, dl)
 		if c.Oracle != "" {
 			c.Oracle = "row values vs decoded image: " + c.Oracle
@@ -432,16 +439,6 @@ func (o *Out) e2eCase(r *hutil.Rng, i int, focus int) {
 		c.Oracle = fmt.Sprintf("global rollback did not restore the rows (branch statuses %v, table equal to the initial table: %v)", status, same)
 	}
 	o.Cases = append(o.Cases, c)
-}
-
-func removeStr(l []string, s string) []string {
-	out := []string{}
-	for _, x := range l {
-		if x != s {
-			out = append(out, x)
-		}
-	}
-	return out
 }
 
 func mustHex(s string) []byte {
